@@ -24,6 +24,40 @@ where
     }
 }
 
+/// A signed integer `v` needs one more bit than its magnitude (`v` if positive, `!v` if
+/// negative): this is the value `PropertySize<i64>` must track.
+fn signed_magnitude(v: i64) -> i64 {
+    if v < 0 {
+        !v
+    } else {
+        v
+    }
+}
+
+fn signed_needed_bytes(magnitude: i64) -> ByteSize {
+    needed_bytes((magnitude as u64) << 1)
+}
+
+impl PropertySize<i64> {
+    fn process_signed(&mut self, v: i64) {
+        match self {
+            Self::Fixed(size) => {
+                assert!(*size >= signed_needed_bytes(signed_magnitude(v)));
+            }
+            Self::Auto(max) => {
+                *max = cmp::max(*max, signed_magnitude(v));
+            }
+        }
+    }
+
+    fn into_signed_size(self) -> ByteSize {
+        match self {
+            Self::Fixed(size) => size,
+            Self::Auto(max) => signed_needed_bytes(max),
+        }
+    }
+}
+
 impl<T: Default> Default for PropertySize<T> {
     fn default() -> Self {
         PropertySize::Auto(Default::default())
@@ -242,11 +276,11 @@ impl<PN: PropertyName> Property<PN> {
             } => match entry.value(name).as_ref() {
                 Value::Signed(value) => {
                     counter.process(*value);
-                    size.process(*value);
+                    size.process_signed(*value);
                 }
                 Value::SignedWord(value) => {
                     counter.process(value.get());
-                    size.process(value.get());
+                    size.process_signed(value.get());
                 }
                 _ => {
                     panic!("Value type doesn't correspond to property");
@@ -312,7 +346,7 @@ impl<PN: PropertyName> Property<PN> {
                 size,
                 name,
             } => layout::Property::SignedInt {
-                size: size.into(),
+                size: size.into_signed_size(),
                 default: counter.into(),
                 name,
             },
